@@ -16,7 +16,7 @@ LEVEL = "exploration"
 RULE = (
     "shapes: all lattice triangles in {0..3}^2 and lattice quadrilaterals in {0,1,2}^2 (sliced in the quick tier), "
     "the P and PC alphabets (int/Fraction/float, both orientations, with holes, several components, unbounded), "
-    "the curved Q alphabet, curved composites, curved shapes scaled by 1/1024 and 1024, Empty, Whole. points per shape: one witness per face of the "
+    "the curved Q alphabet, curved composites, curved shapes scaled by 1/1024 and 1024, cubic-bounded shapes built at 4 far positions on every side of the axes, Empty, Whole. points per shape: one witness per face of the "
     "arrangement of its supporting lines, all lattice points of its box +-2, every vertex, edge points at "
     "t=1/4,1/2,3/4, points at normal offsets +-{1e-4,1e-3,1e-2}*size from every edge/arc at t=1/8..7/8 (the sagitta band "
     "of curved segments), far points. queries: `p in S`, contains_point(p, True/False), `p in curve`. "
@@ -55,6 +55,11 @@ def cases(tier, seed):
     fam += [["SCL", "Q.c8", "1/1024"], ["SCL", "Q.blob", "1/1024"], ["SCL", "Q.rsq", "1/1024"], ["SCL", "Q.c16", "1024"], ["SCL", "Q.mixg", "1024"]]
     if tier == "thorough":
         fam += [["SCL", "Q." + q, f] for q in ("lens", "scub", "c5", "ftri") for f in ("1/1024", "1024")]
+    # other positions: cubic-bounded shapes built fresh on every side of the axes (dyadic offsets: exact)
+    far = [(-12.0, 5.0), (-40.0, -7.0), (300.0, 40.0), (7.0, -250.0)]
+    for q in (["blob", "scub", "tear", "dblh"] if tier == "thorough" else ["blob", "scub", "tear"]):
+        for k, (dx, dy) in enumerate(far):
+            fam.append(["TR", "Q." + q + ("@cw" if k % 2 else ""), dx, dy])
     fam += [["CQ", "ringc"], ["CQ", "twoc"], ["CQ", "xringc"], ["E"], ["W"]]
     specs = []
     for n in range(0, len(fam), 6):
